@@ -23,8 +23,37 @@ fn nudge(rng: &mut Rng, v: f64) -> f64 {
     r
 }
 
+/// generic fractional coordinates (full 53-bit mantissas, mixed signs): the third point is a
+/// rounded point of the segment, i.e. within about an ulp of the line, then nudged by 0..2 ulps.
+/// Here the coordinate *differences* are not exactly representable, which is where an
+/// insufficient floating-point filter in front of the exact predicate goes wrong.
+fn near_collinear_generic(rng: &mut Rng) -> (Coord<f64>, Coord<f64>, Coord<f64>) {
+    let s = *rng.pick(&[1.0, 1.0, 1.0, 8.0, 1e3, 1e-3, 1e6]);
+    let f = |rng: &mut Rng| (rng.unit() * 2.0 - 1.0) * s;
+    let p = Coord { x: f(rng), y: f(rng) };
+    let q = Coord { x: f(rng), y: f(rng) };
+    let t = match rng.below(4) {
+        0 => rng.unit(),
+        1 => rng.unit() * 3.0 - 1.0,
+        2 => 0.5,
+        _ => *rng.pick(&[0.25, 0.75, 1.5, -0.5]),
+    };
+    let mut r = Coord { x: p.x + (q.x - p.x) * t, y: p.y + (q.y - p.y) * t };
+    if rng.chance(2, 3) {
+        r = Coord { x: nudge(rng, r.x), y: nudge(rng, r.y) };
+    }
+    match rng.below(3) {
+        0 => (p, q, r),
+        1 => (r, p, q),
+        _ => (q, r, p),
+    }
+}
+
 /// three points that are exactly collinear in f64 (dyadic construction), then nudged
 fn near_collinear(rng: &mut Rng) -> (Coord<f64>, Coord<f64>, Coord<f64>) {
+    if rng.chance(2, 5) {
+        return near_collinear_generic(rng);
+    }
     let s = 2f64.powi(rng.range(-20, 48) as i32);
     let ox = rng.range(-1000, 1000) as f64 * s;
     let oy = rng.range(-1000, 1000) as f64 * s;
